@@ -4,7 +4,7 @@ import os
 import re
 
 from lib import machine as mc
-from lib.flat import Config, showv
+from lib.flat import Config, showv, scalar_consts
 from lib.mir import AnchorMissing
 from lib.ast import walk
 from . import tok_common
@@ -166,6 +166,9 @@ def r14_4(ctx, which):
             ints.add(int(n["v"]))
 
     walk(it["body"], g)
+    consts = scalar_consts(items)
+    for cinit in consts.values():
+        walk(cinit, g)  # a bound written as a named constant is a cut point like a literal one
     for v in ints:
         cuts.update((v, v + 1))
     pts = sorted(c for c in cuts if 0 <= c <= 0xFFFFFFFF)
@@ -177,7 +180,7 @@ def r14_4(ctx, which):
     samples = sorted(samples)
     inline = {k: v for k, v in meths.items() if k in ("finish_one",)}
     cfg = Config(acquire={}, primitives=set(), inline=inline, guards={"self.num_too_big", "tokenizer.opts.exact_errors"}, int_fields={"self.num": samples},
-                 accessors=set())
+                 accessors=set(), consts=consts)
     from lib.flat import explore, run_body
 
     def runner(run):
